@@ -7,7 +7,9 @@ from concurrent.futures import ThreadPoolExecutor
 import check
 
 GEN = ['tables']
-LEAN_MODULES = ['XfabVerif.Proofs.C15']
+LEAN_MODULES = ['XfabVerif.Proofs.C15', 'XfabVerif.Proofs.C15Tables']
+# definitions the hand-written model mirrors (see harness/pins.py): a source change breaks the tie
+PINS = ['xfab/structure.py:multiplicity', 'xfab/sg.py:sg']
 LEAN_DRIVER_MODULES = ['XfabVerif.Model.Mult']
 RULE = ("all 237 settings (230 numbers + 7 rhombohedral cells) x positions n/24 on the grid {0,1/8,1/6,1/4,1/3,3/8,1/2,5/8,2/3,3/4,5/6,7/8}^3 "
         "and the families (x,x,z), (x,2x,z), (x,-x,z) with generic x = 0.1234+k/1000 (denominator 30000), z generic or on the grid, "
